@@ -19,6 +19,9 @@ for f in sorted(os.listdir(stage)):
     if os.path.isfile(p) and f.endswith(KEEP) and os.path.getsize(p) < 200_000 and not f.endswith(".log"):
         shutil.copy(p, os.path.join(dst, f))
 res = open(stage + ".result").read() if os.path.exists(stage + ".result") else ""
+# later runs of single checks against the same patch (after the checks were strengthened) override the earlier lines
+if os.path.exists(stage + ".result2"):
+    res += "\n" + open(stage + ".result2").read()
 facts = {}
 for key, pat in (("demo_without_change_rc", r"demo-without-change rc=(\d+)"), ("demo_with_change_rc", r"demo-with-change rc=(\d+)"),
                  ("suite_compiles_rc", r"suite-compiles rc=(\d+)"), ("pinned_suite", r"pinned-suite (rc=\d+ PASS=\d+ FAIL=\d+)"),
@@ -27,6 +30,9 @@ for key, pat in (("demo_without_change_rc", r"demo-without-change rc=(\d+)"), ("
     if m:
         facts[key] = m.group(1)
 checks = {}
+first_run = {}
+for m in re.finditer(r"^(C\d\d) rc=(\d+) ", open(stage + ".result").read() if os.path.exists(stage + ".result") else "", re.M):
+    first_run.setdefault(m.group(1), int(m.group(2)))
 for m in re.finditer(r"^(C\d\d) rc=(\d+) (\d+) violation line\(s\): ?(.*)$", res, re.M):
     first = re.sub(r"replay=\S+", "replay=<scratch>", m.group(4))[:240]
     checks[m.group(1)] = {"rc": int(m.group(2)), "violation_lines": int(m.group(3)), "first": first}
@@ -46,6 +52,7 @@ meta = {
     "quick_checks_run_against_it": "tools/try_patch.sh patch.diff <checks> (scratch copy of /repo, never /repo itself)",
     "results": checks,
     "caught_by": sorted(k for k, v in checks.items() if v.get("rc") == 1),
+    "missed_before_strengthening": sorted(k for k, v in checks.items() if v.get("rc") == 1 and first_run.get(k) == 0),
 }
 with open(os.path.join(dst, "meta.json"), "w") as fh:
     json.dump(meta, fh, indent=1)
